@@ -503,7 +503,11 @@ func C08(c *sim.Ctx) {
 				target = uint64(n + t.Draw("l1.above", 3))
 				c.Probe("l1_head_set_above_local_head")
 			}
-			w.SetL1Head(target)
+			if t.Draw("l1.write.fails", 5) == 4 {
+				w.SetL1HeadFailing(target)
+			} else {
+				w.SetL1Head(target)
+			}
 		}
 		if q.requests < maxReq && t.Draw("query.now", 3) != 0 {
 			q.round()
